@@ -1,0 +1,93 @@
+//go:build verif
+
+// Contracts for the generated meta-object / object-reference decoders (package object), checked by
+// /verif/govc. Comments only; build tag verif.
+
+package object
+
+// Every decoder: stays inside the stream, reports an error whenever a read on the stream failed
+// (truncated input is never accepted, C08), allocates nothing from a wire count and makes progress
+// on every iteration of a count-driven loop (C07).
+
+//@ func readMetaMethodParameter(r io.Reader) (s MetaMethodParameter, err error)
+//@   tags C07 C08
+//@   decoder r
+//@   ensures err == nil ==> r.pos >= old(r.pos) + 8
+//@   ensures[C08] old(r.len) - old(r.pos) < 8 ==> err != nil
+
+//@ func readMetaMethod$1() (b []MetaMethodParameter, err error)
+//@   tags C07 C08
+//@   decoder r
+//@   ensures err == nil ==> r.pos >= old(r.pos) + 4
+//@   loop 1:
+//@     invariant 0 <= i && i <= size && r.pos >= old(r.pos) + 4 + 8 * i && r.pos <= r.len && r != nil && fresh(b) && oldarrays_unchanged(b)
+//@     invariant (r.short ==> old(r.short)) && (old(r.short) ==> r.short)
+//@     decreases size - i
+//@     progress r.pos
+
+//@ func readMetaMethod(r io.Reader) (s MetaMethod, err error)
+//@   tags C07 C08
+//@   decoder r
+//@   ensures err == nil ==> r.pos >= old(r.pos) + 28
+//@   ensures[C08] old(r.len) - old(r.pos) < 28 ==> err != nil
+
+//@ func readMetaSignal(r io.Reader) (s MetaSignal, err error)
+//@   tags C07 C08
+//@   decoder r
+//@   ensures err == nil ==> r.pos >= old(r.pos) + 12
+//@   ensures[C08] old(r.len) - old(r.pos) < 12 ==> err != nil
+
+//@ func readMetaProperty(r io.Reader) (s MetaProperty, err error)
+//@   tags C07 C08
+//@   decoder r
+//@   ensures err == nil ==> r.pos >= old(r.pos) + 12
+//@   ensures[C08] old(r.len) - old(r.pos) < 12 ==> err != nil
+
+//@ func readMetaObject$1() (m map[uint32]MetaMethod, err error)
+//@   tags C07 C08
+//@   decoder r
+//@   ensures err == nil ==> r.pos >= old(r.pos) + 4
+//@   loop 1:
+//@     invariant 0 <= i && i <= size && r.pos >= old(r.pos) + 4 + 32 * i && r.pos <= r.len && r != nil && m != nil
+//@     invariant (r.short ==> old(r.short)) && (old(r.short) ==> r.short)
+//@     decreases size - i
+//@     progress r.pos
+//@ func readMetaObject$2() (m map[uint32]MetaSignal, err error)
+//@   tags C07 C08
+//@   decoder r
+//@   ensures err == nil ==> r.pos >= old(r.pos) + 4
+//@   loop 1:
+//@     invariant 0 <= i && i <= size && r.pos >= old(r.pos) + 4 + 16 * i && r.pos <= r.len && r != nil && m != nil
+//@     invariant (r.short ==> old(r.short)) && (old(r.short) ==> r.short)
+//@     decreases size - i
+//@     progress r.pos
+//@ func readMetaObject$3() (m map[uint32]MetaProperty, err error)
+//@   tags C07 C08
+//@   decoder r
+//@   ensures err == nil ==> r.pos >= old(r.pos) + 4
+//@   loop 1:
+//@     invariant 0 <= i && i <= size && r.pos >= old(r.pos) + 4 + 16 * i && r.pos <= r.len && r != nil && m != nil
+//@     invariant (r.short ==> old(r.short)) && (old(r.short) ==> r.short)
+//@     decreases size - i
+//@     progress r.pos
+
+//@ func readMetaObject(r io.Reader) (s MetaObject, err error)
+//@   tags C07 C08
+//@   decoder r
+//@   ensures err == nil ==> r.pos >= old(r.pos) + 16
+//@   ensures[C08] old(r.len) - old(r.pos) < 16 ==> err != nil
+
+//@ func readObjectReference(r io.Reader) (s ObjectReference, err error)
+//@   tags C07 C08
+//@   decoder r
+//@   ensures err == nil ==> r.pos >= old(r.pos) + 24
+//@   ensures[C08] old(r.len) - old(r.pos) < 24 ==> err != nil
+
+//@ func ReadMetaObject(r io.Reader) (s MetaObject, err error)
+//@   tags C07 C08
+//@   decoder r
+//@   ensures[C08] old(r.len) - old(r.pos) < 16 ==> err != nil
+//@ func ReadObjectReference(r io.Reader) (s ObjectReference, err error)
+//@   tags C07 C08
+//@   decoder r
+//@   ensures[C08] old(r.len) - old(r.pos) < 24 ==> err != nil
